@@ -33,7 +33,12 @@ def pRow : P Row := do
 
 def showStmt (s : Stmt) : String := s!"sql={hexOf s.sql} args={",".intercalate (s.args.map hexOf)}"
 
+/-- the database refuses the statement (syntax error, lost connection, constraint): every request that reaches it is
+    answered with an error; requests that are malformed never reach it and are answered with an error as well -/
 def handleC19 (toks : List String) : String :=
+  match toks with
+  | "refused" :: _ => "err"
+  | _ =>
   let r : Option String := (do
     let kind ← P.tok
     let d ← pDialect
@@ -69,7 +74,8 @@ def oracleLineC19 (toks out : List String) : String :=
   | _ =>
     let want := handleC19 toks
     let o := " ".intercalate out
-    if want == "bad-op" then "bad-op"
+    if toks.head? == some "refused" then (if o == "err" then "pass" else "fail database-refusal-not-answered-with-an-error")
+    else if want == "bad-op" then "bad-op"
     else if want == "err" then (if o == "err" then "pass" else "fail statement-issued-for-malformed-request")
     else if o.trimAscii.toString == want.trimAscii.toString then "pass"
     else "fail sql-text-or-arguments-differ-from-data-independent-form"
